@@ -94,7 +94,7 @@ func strConst(v ssa.Value) (string, bool) {
 // calleeIs reports whether the call instruction statically calls f.
 func calleeIs(in ssa.Instruction, f *ssa.Function) (*ssa.CallCommon, bool) {
 	c := an.CallOf(in)
-	if c == nil {
+	if c == nil || f == nil {
 		return nil, false
 	}
 	g := an.StaticCallee(c)
